@@ -243,6 +243,28 @@ func c18Consumer(c *Ctx) {
 			c.Fail(rule, fn, "send", s.Instr(), "cannot relate the message sent on child.messages to an element of msgs (unrecognised loop shape): interceptor accounting undecidable", nil)
 			continue
 		}
+		// which loop is the send in?  A send inside a loop nested in the loop over msgs must send the element at
+		// (outer index + inner index): sending msgs[j] there replays the head of the response and never delivers its tail
+		if sl := fi.InnermostLoop(itemBlock(s)); sl != nil && ei.loop != nil {
+			// nested in another loop that itself walks the messages of the response (the loop of another send)
+			nested := false
+			for _, s2 := range sends {
+				var v2 ssa.Value
+				if s2.Sel != nil {
+					v2 = s2.Sel.States[s2.Case].Send
+				} else {
+					v2 = s2.In.(*ssa.Send).X
+				}
+				if e2, ok2 := classify(v2); ok2 && e2.loop != nil && e2.loop != sl && (e2.loop.Blocks[sl.Head] || e2.loop.Head.Dominates(sl.Head)) && !sl.Blocks[e2.loop.Head] {
+					nested = true
+				}
+			}
+			if ei.outer == nil && nested && ei.loop == sl {
+				c.Fail("C03.feeder-elements", fn, "inner-loop-element", s.Instr(), "the loop that hands over the rest of a response after a reader stall sends an element indexed from the start of the response, not from the element the feeder was blocked on: already delivered messages are delivered again and the tail of the response is lost", nil)
+				continue
+			}
+			c.OK("C03.feeder-elements", fn, "send-element", s.Instr(), "the message sent is the element of the response at the feeder's current position")
+		}
 		if ei.outer == nil {
 			// outer loop send: exactly one interception of this element before the send
 			reg := fi.Iteration(ei.loop)
